@@ -6,6 +6,8 @@ NONASCII_OTHER = ["́", "😀", "‏", " ", "—", "·", " ", "﻿", "\u0085"
 ASCII_PUNCT = list("/-_.@#$%^&*()[]{}<>~!?,;:'\"\\|`+= ")
 CONTROL = ["\t", "\n", "\r", "\x0b", "\x1f", "\x7f"]
 WORDS = ["feature", "Release", "API", "v2", "0051", "000", "0", "007", "hotfix", "x", "A", "main", "DEV", "10", "1a", "a1", "00a"]
+# values that look like what CI systems hand over: full ref names, remote-tracking names, pull-request refs
+REFLIKE = ["refs/heads/main", "refs/heads/feature/x", "refs/tags/v1.2.3", "refs/pull/12/merge", "origin/main", "remotes/origin/release/3", "HEAD", "heads/main", "refs/heads/"]
 
 
 def hostile_text(rng, maxparts=6, allow_control=True, allow_empty=True):
@@ -15,6 +17,8 @@ def hostile_text(rng, maxparts=6, allow_control=True, allow_empty=True):
         return ""
     if r < 0.06:
         return rng.choice(WORDS) * rng.randrange(20, 80)
+    if r < 0.10:
+        return rng.choice(REFLIKE) + (rng.choice(WORDS) if rng.random() < 0.3 else "")
     n = rng.randrange(1, maxparts + 1)
     parts = []
     for _ in range(n):
@@ -33,6 +37,8 @@ def hostile_text(rng, maxparts=6, allow_control=True, allow_empty=True):
 
 
 def ascii_text(rng, maxparts=5):
+    if rng.random() < 0.05:
+        return rng.choice(REFLIKE)
     n = rng.randrange(1, maxparts + 1)
     parts = []
     for _ in range(n):
